@@ -248,6 +248,73 @@ fn reentrant(rep: &mut Report) {
         }
     }
     rep.flag("reentrant-handler-and-sink");
+    // the handler of one client reports through a second client whose sink refuses too: the second
+    // client's own handler sees that failure, once (nothing about a failure is per thread)
+    {
+        struct Refuse(u32);
+        impl MetricSink for Refuse {
+            fn emit(&self, _m: &str) -> io::Result<usize> {
+                Err(io::Error::new(io::ErrorKind::BrokenPipe, crate::writer::Injected(self.0 as usize)))
+            }
+        }
+        for rounds in [1usize, 3] {
+            rep.evaluations += 1;
+            let inner_seen = Arc::new(Mutex::new(0usize));
+            let outer_seen = Arc::new(Mutex::new(0usize));
+            let i2 = inner_seen.clone();
+            let second = StatsdClient::builder("second", Refuse(2)).with_error_handler(move |_e| *i2.lock().unwrap() += 1).build();
+            let o2 = outer_seen.clone();
+            let first = StatsdClient::builder("first", Refuse(1))
+                .with_error_handler(move |_e| {
+                    *o2.lock().unwrap() += 1;
+                    second.count_with_tags("first.failed", 1).send();
+                })
+                .build();
+            let r = panic::catch_unwind(AssertUnwindSafe(|| {
+                for _ in 0..rounds {
+                    first.count_with_tags("k", 1).send();
+                }
+            }));
+            let (o, i) = (*outer_seen.lock().unwrap(), *inner_seen.lock().unwrap());
+            if r.is_err() || o != rounds || i != rounds {
+                rep.violation(Violation {
+                    props: if r.is_err() { vec!["C03", "C20"] } else { vec!["C03"] },
+                    sig: "calls/nested-failure-handlers".into(),
+                    what: format!("{} failing quiet sends on a client whose handler sends through a second client with a refusing sink: first handler ran {} times, second handler {} times (expected {} each), panicked: {}", rounds, o, i, rounds, r.is_err()),
+                    replay: Json::obj().set("engine", "calls").set("case", "nested-failure-handlers"),
+                });
+            }
+        }
+        rep.flag("failure-inside-the-error-handler");
+        // a handler that panics (user code) does not disable reporting of later failures
+        rep.evaluations += 1;
+        let seen = Arc::new(Mutex::new(0usize));
+        let s2 = seen.clone();
+        let c = StatsdClient::builder("p", Refuse(3))
+            .with_error_handler(move |_e| {
+                let mut n = s2.lock().unwrap_or_else(|e| e.into_inner());
+                *n += 1;
+                if *n == 1 {
+                    drop(n);
+                    panic::panic_any(crate::rt::ScriptedPanic("the user's handler panics once".into()));
+                }
+            })
+            .build();
+        let _ = panic::catch_unwind(AssertUnwindSafe(|| c.count_with_tags("k", 1).send()));
+        let later = panic::catch_unwind(AssertUnwindSafe(|| {
+            c.count_with_tags("k", 2).send();
+            c.gauge_with_tags("g", 3u64).send();
+        }));
+        let n = *seen.lock().unwrap_or_else(|e| e.into_inner());
+        if later.is_err() || n != 3 {
+            rep.violation(Violation {
+                props: vec!["C03"],
+                sig: "calls/handler-after-handler-panic".into(),
+                what: format!("after the user's error handler panicked once, two more failing quiet sends: the handler ran {} times in total (expected 3), later sends panicked: {}", n, later.is_err()),
+                replay: Json::obj().set("engine", "calls").set("case", "handler-after-handler-panic"),
+            });
+        }
+    }
 }
 
 pub fn run(spec: &crate::Spec) -> Report {
